@@ -33,9 +33,9 @@ PROPS = {
              "ToLinkReference's normal form, idempotence, whitespace and case (ASCII + table-driven Unicode) insensitivity. Two provisos found: "
              "(1) URLEscape copies bytes 0x80-0xC1/0xF8-0xFF that cannot start a UTF-8 sequence unchanged, so 'pure ASCII' needs valid input (as the "
              "property says) and 'control byte' means <=0x20 and 0x7f; (2) interior \\v/\\f in a link label are not collapsed (only trimmed at the "
-             "ends): the whitespace law holds for runs of space/tab/LF/CR (refuting witness proved). BytesFilter: only the two heap-level lemmas "
-             "(append frame lemma, Extend's slot copy is fresh) are proved; filter_is_set/extend_isolated over all programs are covered by the "
-             "filter correspondence + oracle only. See notes/status_C19.md.",
+             "ends): the whitespace law holds for runs of space/tab/LF/CR (refuting witness proved). BytesFilter: filter_is_set (Contains <=> membership in the spec's plain key list) and extend_isolated are proved for ALL programs by a heap "
+             "invariant over run ops (slots well-formed, views = spec set per hash bucket, prefix masks cover every member, no two slots share an array). "
+             "Also proved: pctDecode(URLEscape v) = pctDecode v for valid UTF-8. See notes/status_C19.md.",
         technique="Lean 4 theorems over a hand-written model + regenerated tables; differential correspondence check against the Go implementation",
         components=["util", "filter"],
         explanation="Theorems over all byte strings about the Lean model of util's transformers (GM.Model.Util), whose byte-class, "
